@@ -146,6 +146,32 @@ def declbatch(pid, stage, tier, seed, outdir, chk):
             errs = [l for l in p.stdout.splitlines() if l.startswith("error")]
             # a declaration the grammar produced but the macro rejects is a generator problem, not a violation;
             # /repo not compiling at all is a build error. Either way nothing was observed.
+            # /repo and the harness (with its fixed corpus of derived sets) compiled -- build_variant above -- so an error
+            # located in the generated source means: the macros turned a declaration of the grammar (every one of which the
+            # unchanged macros accept) into something that does not compile, or now reject it. That is an observation about
+            # the generated program, not a build problem. Anything else (no such location) stays a build error.
+            loc = re.search(r"--> (src/bin/(\w+)\.rs):(\d+)", p.stdout)
+            if loc and errs:
+                binname, line = loc.group(2), int(loc.group(3))
+                decl = -1
+                try:
+                    src = open(os.path.join(gen, loc.group(1))).read().splitlines()
+                    for ln in range(min(line, len(src)) - 1, -1, -1):
+                        mm = re.match(r"\s*pub mod d(\d+) \{", src[ln])
+                        if mm:
+                            decl = int(mm.group(1))
+                            break
+                except Exception:
+                    pass
+                tagc = re.sub(r"[^a-z]+", "-", errs[0].lower())[:60].strip("-")
+                merged["violations"].append({"property": pid, "clause": "generated-declaration-does-not-compile", "tag": tagc, "size": 1,
+                                             "detail": "batch %s, declaration %d: the code the derive macros generate for a declaration of the grammar does not compile (the unchanged macros accept every declaration of the grammar): %s" % (binname, decl, " / ".join(errs[:3])),
+                                             "replay": {"kind": "declbatch", "seed": seed, "batch": want.get(binname, 0), "n_full": nfull, "n_names": nnames, "decl": decl, "mode": mode, "bin": binname, "tier": tier, "features": feats,
+                                                        "stage": {k: stage[k] for k in stage if k.startswith("batches_")}}})
+                k = "%s|generated-declaration-does-not-compile|%s" % (pid, tagc)
+                merged["violation_counts"][k] = 1
+                merged["counters"]["declarations_compiled"] = 0
+                return merged
             return {"build_error": "generated declarations do not compile: %s\n%s" % (errs[0] if errs else "?", p.stdout[-2500:])}
 
         def run(name):
